@@ -4,8 +4,11 @@ Line-protocol driver for engine `bitset` (property C12).
 
 Case line:  `<N> <K> ; op ; op ; …`   — `K` registers of type `Bitset<N>`, all `new()` at the start.
 Ops: `new d`, `from d HEX`, `set d x`, `remove d x`, `flip d x`, `clear d`, `and d a b`, `or d a b`,
-`xor d a b`, `anda d s`, `ora d s`, `xora d s`, `not d s`, `clone d s`, `test r x`, and
-`load d HEX,HEX,…` (a fresh bitset, then `set(i)` for every set bit of the words, ascending).
+`xor d a b`, `anda d s`, `ora d s`, `xora d s`, `not d s`, `clone d s`, `test r x`,
+`load d HEX,HEX,…` (a fresh bitset, then `set(i)` for every set bit of the words, ascending), `obs r` (observe
+register `r` now: a record appended to the observation log), and two more spellings the harness executes through
+other trait entry points of the crate: `default d` (`Default::default()`; in the crate it calls `new`, the model's `new`)
+and `clonefrom d s` (`Clone::clone_from`, the provided method of the derived `Clone`; the model's `clone`).
 Answer: `M <model observation> | S <spec observation>` (the view is the raw observation itself, so the
 `V` field is omitted — `check` then takes view = raw); see `showObs`.
 -/
@@ -45,6 +48,9 @@ def parseOp? (k : Nat) (toks : List String) : Option (List Op) :=
   | ["xora", d, s] => do let d ← reg? d; let s ← reg? s; pure [.xorA d s]
   | ["not", d, s] => do let d ← reg? d; let s ← reg? s; pure [.not d s]
   | ["clone", d, s] => do let d ← reg? d; let s ← reg? s; pure [.clone d s]
+  | ["clonefrom", d, s] => do let d ← reg? d; let s ← reg? s; pure [.clone d s]
+  | ["default", d] => do let d ← reg? d; pure [.new d]
+  | ["obs", r] => do let r ← reg? r; pure [.obs r]
   | ["test", r, x] => do let r ← reg? r; let x ← parsePos? x; pure [.test r x]
   | ["load", d, ws] => do
       let d ← reg? d
@@ -61,7 +67,7 @@ def handle (line : String) : String :=
     match parseNats? (tokens hdr) with
     | some [n, k] =>
       -- the harness instantiates the const generic for exactly these capacities
-      if ¬ (n = 1 ∨ n = 2 ∨ n = 3 ∨ n = 10) ∨ k = 0 ∨ k > 16 then invalid else
+      if ¬ (n = 1 ∨ n = 2 ∨ n = 3 ∨ n = 10 ∨ n = 63 ∨ n = 64 ∨ n = 65 ∨ n = 128 ∨ n = 129) ∨ k = 0 ∨ k > 16 then invalid else
       match (opStrs.filter (· ≠ "")).mapM (fun s => parseOp? k (tokens s)) with
       | none => invalid
       | some opss =>
